@@ -7,6 +7,7 @@ Case formats (see harness/src/dec.rs):
   c18 beh <name> <rows> <cols> <call>… => <res>… | <res>…   factory-built | directly constructed expected (A, schedule)
   c18 rej <string> => <ok|err>
   c03 <ms|aff> <F|L> <rows> <cols> <limit>:<llrs> => <res> <trace token>…
+  c03 tree <exact sum-product name> <rows> <cols> <limit>:<llrs> => <res>      (cycle-free matrix)
 call  = <limit>:<f64 bit patterns, 16 hex digits each, comma separated>
 res   = S:<bits>:<iterations> | F:<bits>:<iterations> | panic
 -/
@@ -14,6 +15,7 @@ import LdpcV.Model.Proto
 import LdpcV.Model.ArithTest
 import LdpcV.Spec.Factory
 import LdpcV.Spec.BPRef
+import LdpcV.Model.ArithIdeal
 namespace LdpcV.Driver.Dec
 open LdpcV.Proto
 
@@ -173,8 +175,69 @@ def runC03 (A : Arith) (sll : A.Llr → String) (sv : List (Nat × A.VarMsg) →
     | some (v, tr) => showVerdict v :: tr.map (showCall A sll sv sc sl)
   (buf, refOut)
 
+/-! ### C03, exactness clause: the exact sum-product arithmetics on cycle-free matrices -/
+
+/-- the ideal sum-product arithmetic at `Float`, reading the channel LLRs from their bit patterns -/
+def floatIdeal : Arith := { Ideal.arith Sc.float with quantize := fun b => Float.ofBits b }
+
+def minAbs (m : Float) (l : List Float) : Float := l.foldl (fun a x => if x.abs < a then x.abs else a) m
+
+/-- textbook flooding with the syndrome stop, also returning the smallest |LLR| seen (robustness of the hard decisions) -/
+def treeFlood (h : SM) (input : List Float) (n : Nat) :
+    Nat → List (List (Nat × Float)) → List Float → Float → Option (Verdict × Float)
+  | 0, _, llrs, m => some (.failure (llrs.map (· ≤ 0)) n, m)
+  | rem+1, em, _, m =>
+    match BPRef.floodIter (A := floatIdeal) h input em with
+    | none => none
+    | some (em', llrs', _) =>
+      let w := llrs'.map (fun (x : Float) => decide (x ≤ 0))
+      let m' := minAbs m llrs'
+      if syndromeOK h w then some (.success w (n - rem), m') else treeFlood h input n rem em' llrs' m'
+
+def treeLayer (h : SM) (n : Nat) : Nat → List (List (Nat × Float)) → List Float → Float → Option (Verdict × Float)
+  | 0, _, vars, m => some (.failure (vars.map (· ≤ 0)) n, m)
+  | rem+1, rcv, vars, m =>
+    match BPRef.layerIter (A := floatIdeal) 0 rcv vars with
+    | none => none
+    | some (rcv', vars', _) =>
+      let w := vars'.map (fun (x : Float) => decide (x ≤ 0))
+      let m' := minAbs m vars'
+      if syndromeOK h w then some (.success w (n - rem), m') else treeLayer h n rem rcv' vars' m'
+
+/-- `c03 tree`: (1) the ideal BP LLRs after `ncols` iterations (≥ diameter) equal the brute-force posterior (numeric
+companion of C03Tree.exact_after_diameter, both schedules); (2) the implementation's verdict equals the ideal
+schedule's verdict whenever every hard decision taken on the way is robust (|LLR| above the rounding margin) -/
+def handleC03Tree (name r c call : String) (out : List String) : String :=
+  match parseSM r c, parseCall call with
+  | some h, some (bits, n) =>
+    let lam : List Float := bits.map Float.ofBits
+    if lam.length ≠ h.ncols then "BADLINE c03 tree length" else
+    let layered := name.startsWith "HL"
+    let f32 := name.endsWith "32"
+    let margin : Float := if f32 then 1e-2 else 1e-7
+    let post := (List.range h.ncols).map (Ideal.posterior Sc.float h lam)
+    let far := if layered then (Ideal.layerRun Sc.float h lam h.ncols).map (·.2) else (Ideal.floodRun Sc.float h lam h.ncols).map (·.2)
+    let sane := match far with
+      | none => false
+      | some l => l.length == post.length && (l.zip post).all (fun p => (p.1 - p.2).abs ≤ 1e-6 * (1 + p.2.abs))
+    let signsOK := syndromeOK h (lam.map (· ≤ 0))
+    let run := if signsOK then some (Verdict.success (lam.map (fun (x : Float) => decide (x ≤ 0))) 0, minAbs 1e9 lam)
+               else if layered then treeLayer h n n (Store.blank (0 : Float) h.rows) lam (minAbs 1e9 lam)
+               else treeFlood h lam n n (BPRef.initEmitted (A := floatIdeal) h lam) lam (minAbs 1e9 lam)
+    match run with
+    | none => "BADLINE c03 tree model-panic"
+    | some (v, m) =>
+      let prop := if !sane then some "ideal-BP-after-ncols-iterations-differs-from-brute-force-posterior" else none
+      if m < margin then                            -- a hard decision within rounding noise: verdict not compared
+        (match prop with
+         | some why => s!"PROPFAIL {why} :: {showVerdict v}"
+         | none => s!"ok [not-compared: hard decision within rounding margin] {showVerdict v}")
+      else verdict [showVerdict v] out prop
+  | _, _ => "BADLINE c03 tree parse"
+
 def handleC03 (inp out : List String) : String :=
   match inp with
+  | ["tree", name, r, c, call] => handleC03Tree name r c call out
   | [ar, sch, r, c, call] =>
     match parseSM r c, parseCall call with
     | some h, some (llrs, n) =>
